@@ -393,7 +393,7 @@ func (s *Sim) spawn(name string, lib bool, fn func()) *Task {
 			delete(s.tasks, id)
 			if r != nil {
 				st := string(debug.Stack())
-				s.res.LibEvents = append(s.res.LibEvents, fmt.Sprintf("panic in task %s: %v", t.Name, r))
+				s.res.LibEvents = append(s.res.LibEvents, fmt.Sprintf("panic in %s [task %s]: %v", TopLibFrame(st), t.Name, r))
 				s.res.Notes = append(s.res.Notes, fmt.Sprintf("panic in task %s: %v\n%s", t.Name, r, trimStack(st)))
 				if s.abort == "" {
 					s.abort = "panic"
@@ -410,6 +410,20 @@ func (s *Sim) spawn(name string, lib bool, fn func()) *Task {
 	}()
 	<-started
 	return t
+}
+
+// TopLibFrame returns the innermost function of the code under test found in a stack trace.
+func TopLibFrame(st string) string {
+	for _, line := range strings.Split(st, "\n") {
+		line = strings.TrimSpace(line)
+		if strings.HasPrefix(line, "trpc.group/trpc-go/trpc-mcp-go") && !strings.Contains(line, "zzsimhook") {
+			if i := strings.LastIndex(line, "("); i > 0 {
+				line = line[:i]
+			}
+			return strings.TrimPrefix(line, "trpc.group/trpc-go/trpc-mcp-go")
+		}
+	}
+	return "?"
 }
 
 func trimStack(st string) string {
